@@ -2,7 +2,7 @@
 import vlib
 
 TRUSTED = ["translator T4 tools/gen_chan.py: what Receiver::recv does between a successful pop and the execution of the message and what Sender::send does after a successful push are translated statement by statement into gen/ChanProg.v on every run (unknown statements are refused, a conditional notify_one becomes 'may or may not notify'); the two wait_until predicates are compared with the shape Chan.v assumes",
-           "Chan.v assumes that the external crates async-event 0.2.1 (wait_until = remove own notifier / predicate / insert / predicate / cancel-or-forward; notify_one = wake one member of the wait set) and diatomic-waker 0.2.3 (register / notify) behave as modelled there: their sources were read, not verified; for async-event the assumption is exercised by oracle-judged schedules on the verbatim crate source (mirrored into atomh over instrumented primitives, part async-event-schedules: no sender is left pending and unwoken in front of a free slot), not by a trace replay; the queue is abstracted to two counters (QueueConc.v proves the queue itself); closing a channel is not modelled; sequential consistency"]
+           "Chan.v assumes that the external crates async-event 0.2.1 (wait_until = remove own notifier / predicate / insert / predicate / cancel-or-forward; notify_one = wake one member of the wait set) and diatomic-waker 0.2.3 (register / notify) behave as modelled there: their sources were read, not verified; for both the assumption is exercised by oracle-judged schedules on the verbatim crate sources (mirrored into atomh over instrumented primitives; parts async-event-schedules: no sender is left pending and unwoken in front of a free slot, and diatomic-waker-schedules: the consumer is never left pending and unwoken in front of an available item), not by a trace replay; the queue is abstracted to two counters (QueueConc.v proves the queue itself); closing a channel is not modelled; sequential consistency"]
 
 
 def gen_aes(rng, n):
@@ -30,10 +30,35 @@ def run_aes(rep, tier, rng):
                                              "why": "on the verbatim async-event crate (the version pinned by /repo/Cargo.lock) driven as channel.rs drives it (wait_until a slot can be taken; free a slot, then notify_one), a sender stays pending without having been woken although a slot is free: Chan.v's model of the primitive does not hold"})
 
 
+def gen_dws(rng, n):
+    """scenarios on the verbatim diatomic-waker DiatomicWaker used as channel.rs uses it for the receiver (dwscen.rs)"""
+    cases = []
+    for _ in range(n):
+        np_ = rng.choice([1, 2, 3]); items = rng.choice([1, 2, 3]); pops = rng.randint(1, np_ * items + 1)
+        sch = []
+        while len(sch) < rng.randint(30, 300):
+            sch += [rng.randrange(np_ + 1)] * rng.choice([1, 1, 2, 4, 10])
+        cases.append("dws %d %d %d 1 S %s" % (np_, items, pops, " ".join(map(str, sch))))
+    return cases
+
+
+def run_dws(rep, tier, rng):
+    cases = gen_dws(rng, 2000 if tier == "quick" else 40000)
+    outs = vlib.run_lines(vlib.ATOMH, ["seq"], cases)
+    bad = [(c, o) for c, o in zip(cases, outs) if not o.startswith("OK")]
+    rep.cov["evaluations"] += len(cases)
+    rep.cov.setdefault("parts", {})["diatomic-waker-schedules"] = {"schedules": len(cases), "with_the_consumer_left_pending": sum(1 for o in outs if "pending=1" in o), "oracle_failures": len(bad)}
+    if bad:
+        c, o = min(bad, key=lambda t: len(t[0]))
+        rep.violation("diatomic-waker-oracle", {"kind": "property-violated-on-implementation", "case": c, "observed": o, "failures": len(bad),
+                                                "why": "on the verbatim diatomic-waker crate (the version pinned by /repo/Cargo.lock) driven as channel.rs drives it (make an item available, then notify; the consumer wait_until's an item), the consumer stays pending without having been woken although an item is available: Chan.v's model of the primitive does not hold"})
+
+
 def run(rep, tier, rng=None):
     import gen_chan
     if rng is not None:
         run_aes(rep, tier, rng)
+        run_dws(rep, tier, rng)
     part = {"translator": "ok"}
     try:
         _, (r, s) = gen_chan.generate()
